@@ -191,6 +191,52 @@ def step (d : Decl) : Value → Op → Value × Ans
     | .lobound => (.set s, .int d.lo)
     | .unique => (.set s, .logical .t)
 
+/-! ### element aggregates with their own bounds (ISO 10303-11 9.2.6 specialization, 13.3.2 assignment compatibility)
+
+An element of an aggregate of aggregates is itself a container with declared bounds.  EXPRESS accepts it where the
+declared element type is `KIND [lo:hi] OF base` when it is the same kind of aggregate, its base type is (recursively)
+acceptable, and its bounds conform: identical for ARRAY; for LIST/BAG/SET the element's bounds lie within the declared
+ones (an indeterminate upper bound only within an indeterminate one).  (EXPRESS also lets a SET stand for a BAG; the
+runtime's classes are unrelated, this reading keeps "same kind".)  `Ty` above is a type *up to bounds*. -/
+inductive BTy
+  | simple (t : Nat)
+  | agg (k : Kind) (lo : Int) (hi : Option Int) (b : BTy)
+  deriving DecidableEq, Repr
+
+def eraseBounds : BTy → Ty
+  | .simple t => .simple t
+  | .agg k _ _ b => .agg k (eraseBounds b)
+
+def upperWithin : Option Int → Option Int → Bool
+  | _, none => true
+  | none, some _ => false
+  | some a, some b => decide (a ≤ b)
+
+def boundsConform (k : Kind) (lo : Int) (hi : Option Int) (lo' : Int) (hi' : Option Int) : Bool :=
+  match k with
+  | .array => decide (lo = lo') && decide (hi = hi')
+  | _ => decide (lo' ≤ lo) && upperWithin hi hi'
+
+/-- `x` may stand where `e` is declared -/
+def specializes : BTy → BTy → Bool
+  | .simple t, .simple t' => decide (t = t')
+  | .agg k lo hi b, .agg k' lo' hi' b' => decide (k = k') && boundsConform k lo hi lo' hi' && specializes b b'
+  | _, _ => false
+
+/-- The EXPRESS built-in functions over aggregates (ISO 10303-11 15.10 HIBOUND, 15.11 HIINDEX, 15.16 LOBOUND, 15.17
+LOINDEX, 15.24 SIZEOF, 15.29 VALUE_UNIQUE) -/
+inductive BuiltinFn | sizeof | hiindex | loindex | hibound | lobound | valueUnique
+  deriving DecidableEq, Repr
+
+/-- what the function returns for an aggregate value `v` of declaration `d` -/
+def builtin (d : Decl) (v : Value) : BuiltinFn → Ans
+  | .sizeof => (step d v .size).2             -- number of elements (ARRAY: hi - lo + 1)
+  | .hiindex => (step d v .hiindex).2         -- ARRAY: declared upper index; BAG/LIST/SET: number of elements
+  | .loindex => (step d v .loindex).2         -- ARRAY: declared lower index; BAG/LIST/SET: 1
+  | .hibound => (step d v .hibound).2         -- ARRAY: declared upper index; else declared upper bound or indeterminate
+  | .lobound => (step d v .lobound).2         -- ARRAY: declared lower index; else declared lower bound
+  | .valueUnique => (step d v .unique).2      -- UNKNOWN with an indeterminate element, else whether all elements differ
+
 /-- the answers EXPRESS gives to a history on a value of declaration `d` -/
 def run (d : Decl) : Value → List Op → List Ans
   | _, [] => []
